@@ -322,6 +322,22 @@ fn mean_sweep<F: Fl>(run: &Arc<Run>, seed: u64, thorough: bool) {
             }
         }
     }
+    // both samples constant (zero variance on both sides: the effective dof is 0/0)
+    for (ca, cb, na, nb) in [(1.0, 2.0, 3usize, 2usize), (0.1, 0.1, 4, 4), (-3.5, 7.25, 2, 9), (1e10, 1e-10, 5, 3)] {
+        let a: Vec<F> = vec![F::of(ca); na];
+        let b: Vec<F> = vec![F::of(cb); nb];
+        for kind in KINDS {
+            for level in LEVELS {
+                let c = conf(kind, level);
+                let inp = || json!({"a": jdata(&a), "b": jdata(&b), "kind": kind.name(), "level": level});
+                verdict(&format!("Unpaired::ci<{}>", F::TY), "both-samples-constant", &Want::OkOrAnyErr, &call(|| Unpaired::<F>::ci(c, &a, &b)).map(|i| F::obs(&i)), &inp, &mut l);
+                verdict(&format!("Unpaired::from_iter+ci_mean<{}>", F::TY), "both-samples-constant", &Want::OkOrAnyErr, &call(|| Unpaired::<F>::from_iter(&a, &b)?.ci_mean(c)).map(|i| F::obs(&i)), &inp, &mut l);
+                if na == nb {
+                    verdict(&format!("Paired::ci<{}>", F::TY), "both-samples-constant", &Want::OkOrAnyErr, &call(|| Paired::<F>::ci(c, &a, &b)).map(|i| F::obs(&i)), &inp, &mut l);
+                }
+            }
+        }
+    }
     // empty states queried directly
     for kind in KINDS {
         let c = conf(kind, 0.5);
@@ -614,6 +630,7 @@ pub fn run(run: &Arc<Run>) {
         "class:huge-magnitudes",
         "class:tiny-magnitudes",
         "class:too-few-observations-on-a-side",
+        "class:both-samples-constant",
         "class:mismatched-lengths",
         "class:k>n",
         "class:k-in-{0,1}",
